@@ -324,6 +324,9 @@ func runWorkers(spec *Spec, b *built, fl string, tier string, n int, runs int, b
 			args := []string{"-check", spec.ID, "-seed", fmt.Sprint(seed()), "-tier", tier, "-worker", fmt.Sprint(w), "-workers", fmt.Sprint(n),
 				"-runs", fmt.Sprint(runs), "-budget", budget.String(), "-out", b.work, "-replays", replayDir, "-flavour", fl, "-tree", b.tree}
 			args = append(args, extra...)
+			if spec.CrashOracle != "" {
+				args = append(args, "-marker")
+			}
 			cmd := driverCmd(spec, b.bins[fl], args)
 			cmd.Dir = b.work
 			env := append(cmd.Env, "GOMAXPROCS=2", "VERIF_REPO="+repoDir(), "VERIF_DIR="+verifDir)
@@ -345,6 +348,12 @@ func runWorkers(spec *Spec, b *built, fl string, tier string, n int, runs int, b
 			select {
 			case err := <-done:
 				if err != nil && cmd.ProcessState.ExitCode() != 2 {
+					if v := crashViolation(spec, b, fl, w, out.String()); v != nil {
+						crashMu.Lock()
+						crashViols = append(crashViols, *v)
+						crashMu.Unlock()
+						return
+					}
 					problems[w] = fmt.Sprintf("worker %d (%s): %v\n%s", w, fl, err, tail(out.String(), 4000))
 					return
 				}
@@ -355,6 +364,12 @@ func runWorkers(spec *Spec, b *built, fl string, tier string, n int, runs int, b
 			}
 			rb, err := os.ReadFile(filepath.Join(b.work, fmt.Sprintf("result-%s-%s-%d.json", spec.ID, fl, w)))
 			if err != nil {
+				if v := crashViolation(spec, b, fl, w, out.String()); v != nil {
+					crashMu.Lock()
+					crashViols = append(crashViols, *v)
+					crashMu.Unlock()
+					return
+				}
 				problems[w] = fmt.Sprintf("worker %d (%s): no result file: %v\n%s", w, fl, err, tail(out.String(), 4000))
 				return
 			}
@@ -374,6 +389,65 @@ func runWorkers(spec *Spec, b *built, fl string, tier string, n int, runs int, b
 		}
 	}
 	return results, probs
+}
+
+var (
+	crashMu    sync.Mutex
+	crashViols []harness.FoundViol
+)
+
+// crashViolation: a worker died. If the check has a crash oracle and the plan
+// it was executing kills a fresh process again (Go runtime fatal error such as
+// "unlock of unlocked mutex" in the code under test), that is a violation
+// witnessed by that plan; otherwise it stays an infrastructure problem.
+func crashViolation(spec *Spec, b *built, fl string, w int, output string) *harness.FoundViol {
+	if spec.CrashOracle == "" {
+		return nil
+	}
+	marker := filepath.Join(b.work, fmt.Sprintf("marker-%s-%s-%d.json", spec.ID, fl, w))
+	mb, err := os.ReadFile(marker)
+	if err != nil {
+		return nil
+	}
+	fatal := ""
+	for _, l := range strings.Split(output, "\n") {
+		if strings.HasPrefix(l, "fatal error:") || strings.HasPrefix(l, "panic:") {
+			fatal = l
+			break
+		}
+	}
+	if fatal == "" {
+		return nil
+	}
+	attributable := false
+	for _, m := range []string{"unlock of unlocked", "Unlock of unlocked", "concurrent map", "all goroutines are asleep", "negative WaitGroup counter"} {
+		if strings.Contains(fatal, m) {
+			attributable = true
+		}
+	}
+	reproduced := 0
+	for i := 0; i < 10; i++ {
+		cmd := driverCmd(spec, b.bins[fl], []string{"-try", marker})
+		cmd.Dir = b.work
+		cmd.Env = append(cmd.Env, "GOMAXPROCS=2", "VERIF_REPO="+repoDir(), "VERIF_DIR="+verifDir)
+		cmd.Env = append(cmd.Env, b.env...)
+		outb, _ := cmd.CombinedOutput()
+		if cmd.ProcessState != nil && cmd.ProcessState.ExitCode() != 0 && cmd.ProcessState.ExitCode() != 1 && strings.Contains(string(outb), "fatal error:") {
+			reproduced++
+		}
+	}
+	if reproduced == 0 && !attributable {
+		return nil
+	}
+	var rp harness.Replay
+	json.Unmarshal(mb, &rp)
+	rp.Oracle, rp.Key = spec.CrashOracle, spec.CrashOracle
+	rp.Message = fmt.Sprintf("the driver process died with a Go runtime %q while executing this plan; re-executed 10 times in fresh processes, it died again %d times (the plan belongs to a batch in which the Go runtime picks among goroutines runnable at the same instant)", fatal, reproduced)
+	path := filepath.Join(outDir(), "replays", fmt.Sprintf("%s-%d-%d-%d-%s-crash.json", spec.ID, rp.Seed, rp.Run, rp.Sub, fl))
+	os.MkdirAll(filepath.Dir(path), 0755)
+	jb, _ := json.MarshalIndent(&rp, "", " ")
+	os.WriteFile(path, jb, 0644)
+	return &harness.FoundViol{Violation: harness.Violation{Oracle: rp.Oracle, Key: rp.Key, Msg: rp.Message}, Replay: path, Count: 1}
 }
 
 func tail(s string, n int) string {
@@ -512,6 +586,7 @@ func runCheck(spec *Spec, tier string) int {
 			samples = append(samples, r.Samples...)
 		}
 	}
+	viols = append(viols, crashViols...)
 	distinct := unionFps(fpFiles)
 	distinctNT := unionFps(ntFiles)
 	// race logs: keep them next to the replays when there were reports
@@ -617,7 +692,9 @@ func runCheck(spec *Spec, tier string) int {
 			fmt.Printf("INFRA: %s\n", p)
 		}
 		evidence["infra_problems"] = problems
-		exit = 2
+		if nviol == 0 {
+			exit = 2
+		}
 	}
 	ej, _ := json.MarshalIndent(evidence, "", " ")
 	os.MkdirAll(filepath.Join(outDir(), "evidence"), 0755)
